@@ -32,7 +32,9 @@
 (* cfg: q (coordinates are integers / q), minc, maxc (within the minimum    *)
 (* distance iff d^2 q^2 <= minc, at or beyond the maximum iff >= maxc),     *)
 (* att (an attenuation curve is configured), st (strength * 1000), tol      *)
-(* (units of 10^-6).                                                        *)
+(* (units of 10^-6), side (FALSE: emitters may lie inside the listener's    *)
+(* head, between the ears, where "the emitter's side" has no meaning; the   *)
+(* louder-ear clause is then not applied).                                  *)
 (*   o   l e R rel M t gl gr z fin flat p                                   *)
 (*       listener at l with orientation R (rotation matrix, row major,      *)
 (*       column 1 = the listener's right), emitter at e; gl, gr = output /  *)
@@ -182,8 +184,8 @@ CheckGeo(m, e) ==
           THEN (IF c.st # 0 THEN "ear_gain_at_least_one_minus_strength"
                 ELSE IF c.att THEN "unity_within_min_distance" ELSE "strength_zero_passes_unpanned")
      ELSE IF c.st = 0 /\ Abs(e.gl - e.gr) > tol THEN "strength_zero_passes_unpanned"
-     ELSE IF c.st # 0 /\ side > 0 /\ e.gr < e.gl - tol THEN "louder_ear_on_emitter_side"
-     ELSE IF c.st # 0 /\ side < 0 /\ e.gl < e.gr - tol THEN "louder_ear_on_emitter_side"
+     ELSE IF c.side /\ c.st # 0 /\ side > 0 /\ e.gr < e.gl - tol THEN "louder_ear_on_emitter_side"
+     ELSE IF c.side /\ c.st # 0 /\ side < 0 /\ e.gl < e.gr - tol THEN "louder_ear_on_emitter_side"
      ELSE IF side = 0 /\ Abs(e.gl - e.gr) > tol THEN "swap_under_mirroring"
      ELSE IF m.hl /\ c.st = 0 /\ c.att /\ d2 = m.ld2 /\ Abs(e.gl - m.lgl) > tol THEN "attenuation_depends_only_on_distance"
      ELSE IF m.hl /\ c.st = 0 /\ c.att /\ d2 > m.ld2 /\ e.gl > m.lgl + tol THEN "attenuation_non_increasing"
